@@ -17,6 +17,22 @@ present) and their output is judged by an independent reader (gverif.refverify) 
           md5-cache/<cat>, metadata/{dtd,glsa,news,xml-schema}, eclass, licenses, profiles; categories,
           md5-cache; metadata; the repository root); after each run the directory is verified AS A TOP-LEVEL tree
           with a fresh gemato loader and the reference (1, 2)
+  pre     the pre-existing package Manifest as a dimension of its own (family 'pre'): in every package that has one
+          it is the correct Manifest of an OLDER STATE of the package, ranging over the 18 variants PRE_VARIANTS =
+          {absent, DIST only, IGNORE only (of an absent path), thick and up to date, thick with an older hash set
+          (SHA256+SHA512), thick and stale (every file had another content: other size, other digests), thick and
+          stale for the files of one tag T in {DATA, MISC, EBUILD, AUX}, thick with one more object that no longer
+          exists, of tag T in {DATA, MISC, EBUILD, AUX, MANIFEST, TIMESTAMP}}; "thick" = DIST line + one
+          DATA/MISC/EBUILD/AUX entry per file.  Packages: quick — <pkg>-1.ebuild + every subset of {metadata.xml,
+          files/x, ChangeLog}, and the ebuild-less {metadata.xml, files/x} and {} (10), alone in a repository with all
+          optional components (those with variant absent / DIST only and no ChangeLog are the 1x1 members of
+          family pkg and not repeated); thorough — all 64 subsets of {e1, e2, metadata.xml, files/x, files/sub/y, ChangeLog}
+          alone in the minimal and in the full repository, plus the 10 quick packages on a 2x2 grid whose last
+          package carries the same variant.  Both entry points: gen_fast_metamanifest on the repository ((1)-(4),
+          edit sets: quick <= 1 atom from {change, add, delete} a file of that package; thorough <= 2 atoms from
+          those three + the look-alike directory, and every other single atom) and gen_fast_manifest on the package directory alone ((1),
+          (2)).  The oracle is the one above; nothing is demanded about which non-file lines (DIST, IGNORE,
+          TIMESTAMP) of the old Manifest survive — that is only recorded as an outcome class.
 """
 
 import hashlib
@@ -39,7 +55,15 @@ RULE = ('programs = runs of utils/gen_fast_metamanifest.py (one per repository s
         'of the 7 optional repository components, each content component absent once (277 repositories); thorough — '
         'all 64 subsets on {1,2}x{1,2} grids, alike grids up to 4x4, optional subsets x absent content components '
         '(2018). Each generated repository x edit sets of size <= 2 (<= 3 thorough on the 1x1/2x2/alike<=2x2 shapes; '
-        '<= 1 on the optional-component family) from 12 atoms; disagreement checked = one judged verdict '
+        '<= 1 on the optional-component family) from 13 atoms; family pre — pre-existing package Manifest over 18 '
+        'variants (absent, DIST only, IGNORE only, thick up to date, thick with older hash set, thick stale (all files / '
+        'files of one tag DATA|MISC|EBUILD|AUX), thick with an entry of tag DATA|MISC|EBUILD|AUX|MANIFEST|TIMESTAMP '
+        'for an object that no longer exists) x packages (quick: 10 packages = ebuild + subsets of {metadata.xml, '
+        'files/x, ChangeLog} and 2 ebuild-less, 1x1 grid, 130 repositories not already in family pkg; thorough: 64 component subsets x {minimal, '
+        'full} repository on 1x1 + the 10 quick packages on 2x2, 1998 repositories) x both entry points (whole '
+        'repository with edit sets <= 1 of the 3 package-file atoms quick / <= 2 of those + look-alike directory, <= 1 of the other atoms thorough; gen_fast_manifest on the package directory alone); a '
+        'stale:T variant is skipped for packages without a file of tag T (it would equal "thick up to date"); '
+        'disagreement checked = one judged verdict '
         '(generator exit, gemato verify, reference coverage, quiet update, update+verify after an edit set)')
 ASSUMPTIONS = [
     'scripts are run unmodified as subprocesses of sys.executable (set GVERIF_C20_UTILS to test a mutated copy)',
@@ -53,6 +77,13 @@ ASSUMPTIONS = [
     'eclass/e.eclass, metadata/glsa/g, header.txt and one new file next to each',
     'single-directory runs are bottom-up, as the script is designed to be used (a directory is generated after the '
     'directories below it that carry their own Manifest)',
+    'family pre: the pre-existing Manifest is always the well-formed, sorted Manifest of an older state of the same '
+    'package (one DIST line, at most one departure from the current state per variant); malformed or hand-edited '
+    'pre-existing Manifests, IGNORE lines for paths that exist, and pre-existing Manifests in non-package '
+    'directories are out of scope; whether DIST/IGNORE/TIMESTAMP lines of the old Manifest survive is not judged '
+    '(the statement is silent), only that every file is covered exactly once with right size and BLAKE2B+SHA512, '
+    'gemato verify passes and gemato update rewrites nothing; "exactly once" is judged even where the reference '
+    'gives no verify verdict for a doubly listed path',
 ]
 
 UTILS = os.environ.get('GVERIF_C20_UTILS', '/repo/utils')
@@ -213,16 +244,18 @@ def pre_shapes(tier):
     """-> list of ('pre', shape, variant)."""
     full = repogen.C20_BASE + tuple(x for x in repogen.C20_OPT if x != 'nd2')
     out = []
+    quick_subs = [('e1',) + s for s in repogen.powerset(('meta', 'fx', 'other'))] + [('meta', 'fx'), ()]
     if tier == 'quick':
         # an ebuild package with every subset of {metadata.xml, files/x, ChangeLog}, and two ebuild-less ones
-        subs = [('e1',) + s for s in repogen.powerset(('meta', 'fx', 'other'))] + [('meta', 'fx'), ()]
-        grids, repos = [(1, 1)], [full]
+        combos = [((1, 1), full, sub) for sub in quick_subs]
     else:
-        subs = list(repogen.powerset(PRE_COMPS))
-        grids, repos = [(1, 1), (2, 2)], [repogen.C20_BASE, full]
-    for (nc, npk), repo, sub, pre in itertools.product(grids, repos, subs, PRE_VARIANTS):
+        combos = [((1, 1), repo, sub) for repo in (repogen.C20_BASE, full) for sub in repogen.powerset(PRE_COMPS)]
+        combos += [((2, 2), full, sub) for sub in quick_subs]
+    for ((nc, npk), repo, sub), pre in itertools.product(combos, PRE_VARIANTS):
         if not pre_applicable(sub, pre):
             continue
+        if tier == 'quick' and pre in ('absent', 'dist') and 'other' not in sub:
+            continue        # the very same repository is part of family pkg
         first = tuple(c for c in sub if c != 'other') + ('man',)
         last = repogen.PKG_FULL + ('man',)
         cats = [[first if (ci, pi) == (0, 0) else last if (ci, pi) == (nc - 1, npk - 1) else repogen.PKG_FULL
@@ -240,10 +273,13 @@ KINDS = ('change', 'add', 'delete')
 ATOMS = [(k, p) for p in PLACES for k in KINDS] + [('add', 'lookalike')]
 
 
-def edit_sets(maxn):
+PKG_ATOMS = [(k, 'pkg') for k in KINDS]
+
+
+def edit_sets(maxn, atoms=None):
     out = [()]
     for n in range(1, maxn + 1):
-        for c in itertools.combinations(ATOMS, n):
+        for c in itertools.combinations(ATOMS if atoms is None else atoms, n):
             # change and delete of the same target in one set is just a delete
             if any((('change', p) in c and ('delete', p) in c) for p in PLACES):
                 continue
@@ -298,7 +334,7 @@ def apply_edits(root, sh, seed, edits):
 def _v(out, case, check, msg, **extra):
     sig = {'check': check, 'part': case['part']}
     if case.get('pre') is not None:
-        sig['pre'] = case['pre']
+        sig['pre'] = case['pre'].split(':')[0]          # variant class; the exact variant is in the message
     sig.update(extra)
     out.append({'sig': sig, 'case': case, 'message': f'{check} [{case["part"]}] {msg} (shape={case["shape"]}, '
                 f'pre-existing package Manifest={case.get("pre") or "as in shape"}, edits={case.get("edits")})'})
@@ -348,7 +384,7 @@ def check_generated(case, root, stats, out):
         stats.transitions += 1
         if case.get('pre') is not None:
             cat, pkg, _c = repogen.packages(case['shape'], case['seed'])[0]
-            stats.outcomes[f'pre/meta/{case["pre"].split(":")[0]}->{carried(root, f"{cat}/{pkg}")}'] += 1
+            stats.outcomes[f'pre/meta/{carried(root, f"{cat}/{pkg}")}'] += 1
         if dc:
             stats.dontcare['reference: ' + dc] += 1
         else:
@@ -502,7 +538,7 @@ def check_single(case, scratch, stats=None):
             stats.outcomes[f'single/{top}/{gem.brief(fv)}'] += 1
             if case.get('pre') is not None and klass == 'package':
                 stats.counters['pre/single_package_runs'] += 1
-                stats.outcomes[f'pre/single/{case["pre"].split(":")[0]}->{carried(full, "")}'] += 1
+                stats.outcomes[f'pre/single/{carried(full, "")}'] += 1
         # the script leaves files named timestamp* out of non-package Manifests and relies on IGNORE lines
         # that only gen_fast_metamanifest pre-populates: one finding, reported once per repository
         ts_only = (v.kind == 'mismatch' and not v.chain_broken and not v.conflicts and bool(v.offenders) and
@@ -565,9 +601,18 @@ def all_cases(tier):
     return [(fam, sh, None) for fam, sh in repogen.shapes_c20(tier)] + pre_shapes(tier)
 
 
+def case_edit_sets(tier, fam, sh):
+    if fam != 'pre':
+        return edit_sets(max_edits(tier, fam, sh))
+    # family pre: the edits inside / next to the package whose Manifest pre-existed (quick: one of them; thorough:
+    # up to two of them, and every other single atom)
+    if tier == 'quick':
+        return edit_sets(1, PKG_ATOMS)
+    near = edit_sets(2, PKG_ATOMS + [('add', 'lookalike')])
+    return near + [e for e in edit_sets(1) if e not in near]
+
+
 def max_edits(tier, fam, sh):
-    if fam == 'pre':
-        return 1 if tier == 'quick' else 2
     grid = (len(sh['cats']), max([len(c) for c in sh['cats']] or [0]))
     if fam == 'opt':
         return 1
@@ -605,7 +650,7 @@ def run_shard(spec, tier, seed, scratch):
         gen_tree = check_generated(case, root, stats, out) if root is not None else None
         stats.case(('meta', ckey), nontrivial=gen_tree is not None)
         if gen_tree is not None:
-            for edits in edit_sets(max_edits(tier, fam, sh)):
+            for edits in case_edit_sets(tier, fam, sh):
                 if not edits:
                     continue
                 ecase = dict(case, edits=[list(e) for e in edits])
@@ -654,6 +699,19 @@ def finish(total, tier):
               'repositories_without_preexisting_package_Manifest'):
         if c.get(k, 0) < 1:
             errs.append(f'vacuity: {k} = 0')
+    # the pre-existing-package-Manifest family
+    for v in PRE_VARIANTS:
+        if c.get('pre/' + v, 0) < 1:
+            errs.append(f'vacuity: pre-existing package Manifest variant {v} never generated')
+    if c.get('pre/single_package_runs', 0) < len(PRE_VARIANTS):
+        errs.append(f'vacuity: only {c.get("pre/single_package_runs", 0)} single-directory runs in the pre family')
+    for part in ('meta', 'single'):
+        classes = sorted(k for k in total.outcomes if k.startswith(f'pre/{part}/'))
+        if len(classes) < 2:
+            errs.append(f'vacuity: pre family [{part}] produced {len(classes)} outcome class(es): {classes}')
+        for top in ('Manifest/', 'Manifest.gz/'):
+            if not any(k.startswith(f'pre/{part}/{top}') for k in classes):
+                errs.append(f'vacuity: pre family [{part}] never produced a package {top[:-1]}')
     for k in ('package', 'category', 'cat', 'md5-cache', 'metadata', 'root', 'glsa', 'eclass'):
         if c.get('single_dir/' + k, 0) < 1:
             errs.append(f'vacuity: gen_fast_manifest never run on a directory of class {k}')
@@ -662,4 +720,4 @@ def finish(total, tier):
 
 def extra_evidence(total, tier):
     return {'space': {k: v for k, v in sorted(total.counters.items())
-                      if k.startswith(('repositories', 'programs', 'edit_sets', 'single_dir'))}}
+                      if k.startswith(('repositories', 'programs', 'edit_sets', 'single_dir', 'pre/'))}}
